@@ -23,6 +23,9 @@ type Shape struct {
 	// AssumeLits constrains the symbolic literals (e.g. small ranges for loop bounds / indices).
 	AssumeLits func(c *gosym.Ctx)
 	Tag        string // known-finding class suggestion for shape-level defects
+	Mods         func(c *gosym.Ctx) map[string]*oracle.Program // imported files (path as written in the import)
+	Init         func(c *gosym.Ctx)                             // runs before the real code (e.g. hash-prefix classes)
+	ExpectReject bool                                           // the program is illegal: transpilation must fail
 	Concretize func(o *eqOutcome, m map[string]uint64) // fills stdin / pre-existing files of a counterexample
 }
 
@@ -46,6 +49,7 @@ type eqOutcome struct {
 	Data     string
 	Stdin    string
 	Pre      map[string]string
+	ExpectReject bool
 }
 
 type eqOpts struct {
@@ -80,7 +84,19 @@ func bashEquiv(r *Run, c *gosym.Ctx, sh Shape, o eqOpts) (out eqOutcome) {
 	for p, content := range sh.Files {
 		c.FS.AddFile("/work/"+p, gosym.Conc(content))
 	}
+	modRopes := map[string]gosym.Str{}
+	var mods map[string]*oracle.Program
+	if sh.Mods != nil {
+		mods = sh.Mods(c)
+		for p, mp := range mods {
+			modRopes[p] = oracle.Render(mp)
+			c.FS.AddFile("/work/"+p, modRopes[p])
+		}
+	}
 	mountStd(c)
+	if sh.Init != nil {
+		sh.Init(c)
+	}
 	if sh.AssumeLits != nil {
 		sh.AssumeLits(c)
 	}
@@ -90,6 +106,7 @@ func bashEquiv(r *Run, c *gosym.Ctx, sh Shape, o eqOpts) (out eqOutcome) {
 
 	// reference evaluation
 	in := oracle.NewInterp(c)
+	in.SetFiles(mods)
 	shl := oracle.NewShell(c)
 	shl.Stub = o.Stub
 	for _, l := range sh.Stdin {
@@ -102,6 +119,25 @@ func bashEquiv(r *Run, c *gosym.Ctx, sh Shape, o eqOpts) (out eqOutcome) {
 	}
 	if sh.Setup != nil {
 		sh.Setup(c, in, shl)
+	}
+	if sh.ExpectReject {
+		if gp != nil {
+			out.Kind, out.Diff = "diff", "transpilation panicked: "+gp.Msg
+		} else if hasErr {
+			out.Kind = "ok"
+		} else {
+			out.Kind, out.Diff = "diff", "illegal program accepted"
+		}
+		if out.Kind == "diff" {
+			_, m := c.Sat()
+			out.Src = concretizeSource(src, m)
+			out.Files = map[string]string{}
+			for p, rp := range modRopes {
+				out.Files[p] = concretizeSource(rp, m)
+			}
+			out.ExpectReject = true
+		}
+		return
 	}
 	excluded, refUnsup := "", ""
 	func() {
@@ -132,6 +168,15 @@ func bashEquiv(r *Run, c *gosym.Ctx, sh Shape, o eqOpts) (out eqOutcome) {
 		x := eqOutcome{Shape: sh.Name, Kind: "diff", Diff: diff}
 		x.Src = concretizeSource(src, m)
 		x.Files = sh.Files
+		if len(modRopes) > 0 {
+			x.Files = map[string]string{}
+			for p, c := range sh.Files {
+				x.Files[p] = c
+			}
+			for p, rp := range modRopes {
+				x.Files[p] = concretizeSource(rp, m)
+			}
+		}
 		x.Expected = ModelStr(refOut, m)
 		x.ExpCode = int(in.Exit)
 		if o.CompareFiles {
@@ -398,6 +443,7 @@ func confirmBash(r *Run, o eqOutcome, pre map[string]string, stdin string) (conf
 	for p, c := range o.Files {
 		files[p] = c
 	}
+	files = realizeHashClasses(files)
 	res, err := r.Native.RunDrv([]DrvReq{{Op: "transpile", Files: files, Main: "main.tsh", Target: "bash"}}, 30*time.Second)
 	if err != nil || len(res) != 1 {
 		return true, "native transpiler crashed or hung: " + fmt.Sprint(err)
@@ -405,6 +451,12 @@ func confirmBash(r *Run, o eqOutcome, pre map[string]string, stdin string) (conf
 	n := res[0]
 	if n.Panic != "" {
 		return true, "native Transpile panicked: " + n.Panic
+	}
+	if o.ExpectReject {
+		if n.HasErr {
+			return false, ""
+		}
+		return true, "native Transpile accepts the illegal program"
 	}
 	if n.HasErr {
 		return true, "native Transpile rejects the well-typed program: " + n.Err
